@@ -81,12 +81,19 @@ Definition sc_future_round_view : list event :=
 Definition sc_stale_step_after_committed_header : list event :=
   enter0 ++ [EvView (sv 1 0 2 (svs 0 0 [] []) []) (Some (1, 1)); EvRERespCH [7] 1 0; EvTimer].
 
+(** commit wait without the committed block's header: the header of ANOTHER block, which leads the prevote tally,
+    arrives first and must not be finalized; the right header arrives afterwards *)
+Definition sc_commit_wait_other_header_first : list event :=
+  enter0 ++ [EvView (sv 1 0 2 (svs 0 30 [] [([7], 30)]) []) None;
+             EvView (sv 1 0 3 (svs 30 30 [([8], 20); ([7], 10)] [([7], 30)]) [sph 8]) None;
+             EvView (sv 1 0 4 (svs 30 30 [([8], 20); ([7], 10)] [([7], 30)]) [sph 8; sph 7]) None].
+
 Definition scenarios : list (list event) :=
   [sc_nil_prevote_restart_block; sc_block_prevote_restart_nil; sc_block_prevote_restart_other;
    sc_nil_precommit_restart_block; sc_block_precommit_restart_nil; sc_proposal_restart_other_proposal;
    sc_prevote_delay_then_commit; sc_prevote_delay_then_nil_commit; sc_prevote_delay_then_precommit_delay;
    sc_prevote_delay_elapses; sc_precommit_delay_then_commit; sc_stale_round_nil_quorum; sc_future_round_view;
-   sc_stale_step_after_committed_header].
+   sc_stale_step_after_committed_header; sc_commit_wait_other_header_first].
 
 Definition scenario_report : list (list (list N * (list (list N) * list (list N)))) :=
   map (fun es => combine (map enc_event es) (map project (run_events (sm0 true) es))) scenarios.
